@@ -15,7 +15,7 @@ func init() {
 		Property: "C06",
 		Explanation: "Narrow structural necessary conditions of the multicast rate limiter in Advertiser.schedule (the real spacing of transmissions over arrival histories is a timing property and is NOT decided): " +
 			"R-C06-1 minDelayBetweenRAs == 3s and only NewAdvertiser writes the field, with that constant; R-C06-2 the delay handed to the scheduler for a multicast request is minDelayBetweenRAs when time.Since(lastMulticast) < minDelayBetweenRAs and 0 otherwise, and unicast requests neither read nor write lastMulticast; " +
-			"R-C06-3 lastMulticast is updated on every multicast iteration to the instant the RA is to be sent (now + chosen delay); R-C06-4 a solicitation from :: becomes an all-nodes request; R-C06-5 only Run (initial), sendWorker (scheduled) and shutdown (final) call send R-C06-4 is universal: every path on which the solicitation's source is :: returns the all-nodes address.",
+			"R-C06-3 lastMulticast is updated on every multicast iteration to the instant the RA is to be sent (now + chosen delay); R-C06-4 a solicitation from :: becomes an all-nodes request; R-C06-5 only Run (initial), sendWorker (scheduled) and shutdown (final) call send, and sendWorker transmits at most once per scheduling decision, to its own destination parameter; R-C06-4 is universal: every path on which the solicitation's source is :: returns the all-nodes address.",
 		Assumptions: []string{
 			"Go type checker and go/ssa construction are correct",
 			"schedgroup.Group.Delay(d, f) runs f once about d after the call",
@@ -199,4 +199,30 @@ func runC06(c *Ctx) {
 		c.R.Check(ok && s.Fn.Parent() != nil, "R-C06-5", c.fname(s.Fn)+":calls-sendWorker", c.fname(s.Fn), c.pos(s.Pos()), "caller "+c.fname(s.Fn), "sendWorker runs only inside closures scheduled by schedule()", "a transmission bypasses the scheduler's spacing")
 	}
 	c.R.Floor("R-C06-5", 3)
+	// one scheduling decision, at most one transmission, to the scheduled destination: on every path
+	// of sendWorker send is called at most once, with sendWorker's own ip parameter
+	if sw := c.needMethod("R-C06-5", "internal/corerad", "Advertiser", "sendWorker"); sw != nil {
+		worst, badDst := 0, ""
+		for _, p := range c.pathsO("R-C06-5", sw, an.PathOpts{EmitCut: true}) {
+			calls := callsOnPath(p, func(cc *ssa.CallCommon) bool { return an.CallIs(cc, PkgCorerad, "Advertiser", "send") })
+			if len(calls) > worst {
+				worst = len(calls)
+			}
+			for _, ci := range calls {
+				args := ci.Common().Args
+				if len(args) < 3 {
+					continue
+				}
+				if e := p.Of(args[2]); !(e.Op == an.OpParam && e.Fn == sw) {
+					badDst = e.String()
+				}
+			}
+		}
+		fact := fmt.Sprintf("at most %d send call(s) on a path of sendWorker", worst)
+		if badDst != "" {
+			fact += "; destination " + badDst
+		}
+		c.R.Check(worst == 1 && badDst == "", "R-C06-5", c.fname(sw)+":one-transmission-per-decision", c.fname(sw), c.pos(sw.Pos()), fact,
+			"a scheduled task transmits at most one RA, to the destination the scheduler decided on", "a second (multicast) RA goes out from a task after the limiter's decision: multicast RAs closer than MIN_DELAY_BETWEEN_RAS")
+	}
 }
